@@ -46,9 +46,10 @@ ops (``args`` in parentheses, extra fields after the arrow):
                             (``"run"|"check"|"validate"|None``).
 ``start`` (step)            ``execute_job`` first transaction: ``reset_for_rerun``.
 ``early_fail`` (step, inp_hashes)  ``_new_run`` on unexpected input changes: TWO transactions, so
-                            two events: ``early_fail`` = ``update_file_hashes(.., FAILED)``, then
-                            ``end`` with ``kind="early_fail"`` = ``mark_completed(None, False)``;
-                            afterwards the scheduler drains.
+                            two events (other events may come in between): ``early_fail`` =
+                            ``update_file_hashes(.., FAILED)``, later ``end`` with
+                            ``kind="early_fail"`` = ``mark_completed(None, False)``; afterwards
+                            the scheduler drains.
 ``static`` (step, paths)    ``declare_static_files`` + ``update_file_hashes(.., CONFIRMED)``.
 ``define`` (creator, label, inp, out, vol, need, resources, duration) -> ``node``, ``recycle``
                             (``"new"|"full"|"partial"``).
@@ -79,7 +80,25 @@ Deviations from the real system (all deliberate, none changes what the real code
 * Whether a skip / validation succeeds, whether a step fails, and which output hashes "changed on
   disk" are random instead of being derived from file contents.
 * A restart re-uses the connection (``sched.initialize`` + ``reconcile_targets``) instead of
-  re-opening the database.
+  re-opening the database (so ``Workflow.initialize`` / ``_check_consistency`` do not run again).
+  After a ``rejected`` ``reconcile`` the history simply goes on (the real director exits).
+* An ``external`` change of a CONFIRMED static file may mark the programs of the steps that have it
+  as an initial input as *edited*: their next hash check fails and the program is mutated before
+  the rerun (this emulates an edited script / plan; it only biases the random choices).
+
+Stats
+-----
+``stats`` counts ``op.<name>`` (events), ``job.<kind>``, ``tick.dispatch|none``, ``end.<kind>``,
+``skip.ok|fail``, ``define.new|full|partial``, ``mutate.<kind>``, ``phase.restart|watch``,
+``rejected``, ``error`` and shape facts ``shape.*``: per tick (on ``after_meta``) ``opt_chain2``
+(>= 2 attached OPTIONAL steps feeding a non-OPTIONAL step), ``implied_need_raised|target|
+via_dyn_edge``, ``hold_spans_tick``, ``check_bypasses_hold``, ``deferred_at_tick``,
+``detached_step_at_tick``, ``detached_opt_consumer_at_tick``, ``resource_blocked``,
+``resource_step_dispatched``; per event ``dyn_edge``, ``dyn_edge_from_optional``, ``defer``,
+``cap_exceeded``, ``recycled_child``, ``dropped_child``, ``dropped_opt_consumer`` (a creator rerun
+no longer defines a child that consumed an optional output), ``rerun_without_opt_amend`` (a
+successful rerun that no longer amends the optional outputs it amended in its previous successful
+run), ``target_phase``, ``dir_target_phase``, ``target_change``.
 """
 from __future__ import annotations
 
@@ -629,6 +648,7 @@ class Sim:
         self.last_tick_none = False
         self.queue: list = []  # scripted operations of finalize / new phase
         self.clock = 0
+        self.dispatched_at_phase_start = 0
         self.nphase = 1
         self.salt = 0
         self.last_snap: dict | None = None
@@ -832,6 +852,8 @@ class Sim:
             await self._validate(jr)
         elif jr.phase == "new":
             await self._start(jr)
+        elif jr.phase.startswith("early_end"):
+            await self._early_end(jr)
         else:
             await self._action(jr)
 
@@ -924,7 +946,8 @@ class Sim:
         prog = self._program_for_run(step.label)
         jr.prog = prog
         jr.actions = copy.deepcopy(prog["actions"])
-        if self.rng.random() < 0.03 and len(jr.job.inp_hashes) > 0:
+        first_boot = step.label == BOOT_LABEL and prog["successes"] == 0
+        if self.rng.random() < 0.03 and len(jr.job.inp_hashes) > 0 and not first_boot:
             await self._early_fail(jr)
             return
         self._run_started(step.i)  # Executor.execute_job, before _new_run
@@ -962,13 +985,16 @@ class Sim:
             return {}
 
         await self._event("early_fail", args, fn1)
-        if self.finished:
-            return
+        jr.phase = "early_end" if args["inp_hashes"] else "early_end_nodrain"
+
+    async def _early_end(self, jr: _JobRec):
+        """`Executor._finalize_failed_run` (second transaction of an early failure)."""
+        step = jr.step
 
         def fn2():
             step.mark_completed(None, False)
             state = step.get_state()
-            return {"interrupted_defer": False, "new_state": state.value, "drain": True}
+            return {"interrupted_defer": False, "new_state": state.value}
 
         await self._event(
             "end",
@@ -977,9 +1003,13 @@ class Sim:
             fn2,
         )
         self._run_stopped(step.i, succeeded=False)
-        self.sched.draining = True  # _drain_for_unexpected_input_changes
-        self.events[-1]["after"]["draining"] = True
-        self.last_snap = self.events[-1]["after"]
+        # _report_run (FAIL tag) and _drain_for_unexpected_input_changes
+        drain = jr.phase == "early_end" or not self.keep_going
+        self.events[-1]["drain"] = drain
+        if drain and "error" not in self.events[-1]:
+            self.sched.draining = True
+            self.events[-1]["after"]["draining"] = True
+            self.last_snap = self.events[-1]["after"]
         self._finish_job(jr)
 
     async def _action(self, jr: _JobRec):
@@ -1085,7 +1115,10 @@ class Sim:
             unavailable, unfresh, _to_check = self.wf.amend_step(
                 step, inp_paths=inp, out_paths=out, vol_paths=vol, ran_concurrently=rc
             )
-            return {"unavailable": sorted(unavailable), "unfresh": sorted(unfresh)}
+            return {
+                "unavailable": sorted(str(p) for p in unavailable),
+                "unfresh": sorted(str(p) for p in unfresh),
+            }
 
         ev = await self._event("amend", args, fn)
         self._after_job_rpc(jr, ev)
@@ -1235,7 +1268,9 @@ class Sim:
         await self._event("build_completed", {}, fn, is_async=True)
         if self.finished:
             return
-        if self.rng.random() < 0.92:
+        # Usually go on with a new phase; stop more readily after a phase in which nothing ran.
+        idle = self.stats["tick.dispatch"] == self.dispatched_at_phase_start
+        if self.rng.random() < (0.6 if idle else 0.97):
             self._plan_new_phase()
         else:
             self.finished = True
@@ -1244,6 +1279,7 @@ class Sim:
         rng = self.rng
         snap = self.last_snap
         self.nphase += 1
+        self.dispatched_at_phase_start = self.stats["tick.dispatch"]
         self.last_validate_unchanged.clear()
         restart = rng.random() < 0.6
         ops = []
